@@ -147,6 +147,86 @@ func (g *Gen) targetQuery(t *Table) *Q {
 	return q
 }
 
+// selfInsert: the source of an insert query that reads the TARGET table - directly, or through
+// an operator whose result is not updateable (minus, union, intersect, join, leftjoin, semijoin,
+// project, summarize) - and gives its rows new key values (a key column shifted by a constant,
+// or replaced by a constant), so that the inserted rows are new rows which a scan of the
+// target that is still running would come across. The statement's meaning is defined on the
+// table as it was before the statement: each source row is inserted once.
+func (g *Gen) selfInsert(t *Table) *Q {
+	tq := func() *Q { return g.tableQ(t.Name) }
+	var key []string
+	if keys := g.keysOf[t.Name]; len(keys) > 0 {
+		key = keys[g.rnd.Intn(len(keys))]
+	}
+	if len(key) == 0 {
+		key = t.Cols[:1]
+	}
+	other := func() *Q { // a source with the target's columns
+		if g.rnd.Intn(2) == 0 {
+			return g.where(tq())
+		}
+		return g.makeSame(tq(), g.anyTable())
+	}
+	var q *Q
+	switch g.rnd.Intn(10) {
+	case 0:
+		q = tq()
+	case 1, 2:
+		q = g.binary("minus", tq(), other())
+	case 3:
+		q = g.binary("union", tq(), other())
+	case 4:
+		q = g.binary("intersect", tq(), g.where(tq()))
+	case 5:
+		q = g.binary("join", tq(), g.project(tq(), shuffled(g.rnd, key)))
+	case 6:
+		q = g.binary("leftjoin", tq(), g.project(g.where(tq()), shuffled(g.rnd, key)))
+	case 7:
+		q = g.binary("semijoin", tq(), g.makeCommon(tq(), g.anyTable()))
+	case 8:
+		q = g.project(tq(), shuffled(g.rnd, t.Cols))
+	default:
+		q = &Q{Op: "summarize", Src: tq(), By: shuffled(g.rnd, t.Cols), Cols: []string{"count"}, Ops: []string{"count"},
+			Ons: []string{""}, SumNames: []string{""}, cols: append(append([]string{}, t.Cols...), "count"),
+			kinds: copyKinds(g.sc.kinds[t.Name])}
+		q.kinds["count"] = kN
+	}
+	if g.rnd.Intn(3) == 0 {
+		q = g.where(q)
+	}
+	var num []string
+	for _, c := range key {
+		if q.kinds[c] == kN {
+			num = append(num, c)
+		}
+	}
+	ext := func(src *Q, c string, e *Ex, k Kind) *Q {
+		x := &Q{Op: "extend", Src: src, Cols: []string{c}, Exprs: []*Ex{e},
+			cols: append(append([]string{}, src.cols...), c), kinds: copyKinds(src.kinds)}
+		x.kinds[c] = k
+		return x
+	}
+	if len(num) > 0 && g.rnd.Intn(5) > 0 {
+		// <c> shifted: rename c to c0 extend c = c0 + n [remove c0]
+		c := num[g.rnd.Intn(len(num))]
+		c0 := g.fresh(q.cols)
+		n := []int{1, 2, 3, 10, 10, -1, -10}[g.rnd.Intn(7)]
+		q = g.rename(q, []string{c}, []string{c0})
+		q = ext(q, c, &Ex{K: "arith", O: "add", A: &Ex{K: "col", C: c0}, B: &Ex{K: "const", V: vNum(n)}}, kN)
+		if g.rnd.Intn(2) == 0 {
+			q = g.remove(q, []string{c0})
+		}
+	} else if len(q.cols) > 1 {
+		// <c> replaced by a constant
+		c := key[g.rnd.Intn(len(key))]
+		v := g.constFor(g.sc.kinds[t.Name][c])
+		q = g.remove(q, []string{c})
+		q = ext(q, c, &Ex{K: "const", V: v}, kindOf(v))
+	}
+	return q
+}
+
 func (g *Gen) genAction() *action {
 	t := g.sc.Tables[g.rnd.Intn(len(g.sc.Tables))]
 	kinds := g.sc.kinds[t.Name]
@@ -176,6 +256,11 @@ func (g *Gen) genAction() *action {
 		a.text = "insert {" + strings.Join(parts, ", ") + "} into " + t.Name
 		return a
 	case r < 8: // insert query
+		if len(t.Rows) > 0 && g.rnd.Intn(3) == 0 {
+			src := g.selfInsert(t)
+			return &action{kind: "insertq", table: t.Name, q: src,
+				text: "insert " + src.text() + " into " + t.Name}
+		}
 		for try := 0; try < 20; try++ {
 			src := g.gen(1 + g.rnd.Intn(2))
 			tabs := map[string]bool{}
